@@ -205,28 +205,20 @@ def prove_selection_step(src_root, ex: Explorer):
 
 def prove_rank(src_root, ex: Explorer):
     def step(ctx: Ctx):
+        """_prioritize_uploads on two arbitrary queued uploads (the pairwise statement of "sorted by priority"; the sort itself is the
+        engine's symbolic stable sort): the upload of the user with the lexicographically higher (privileged, friend, online/away) comes
+        first.  Stated on the RESULT, so the way the rank is computed (loop, comprehension, helper) does not matter."""
         it = mk(src_root, ctx)
         w = World(it, ctx)
         a, b = w.transfer('a', direction='UPLOAD'), w.transfer('b', direction='UPLOAD')
-        ranks = {}
-
-        def loop(it2, node, env):
-            for t in (a, b):
-                it2.assign(node.target, t, env)
-                rk = env.vars['ranking']
-                n0 = len(rk)
-                it2.exec_block(node.body, env)
-                if len(rk) != n0 + 1 or rk[-1][1] is not t:
-                    raise Unsupported('ranking loop: unexpected accumulator')
-                ranks[t.label] = rk[-1][0]
-            raise ReturnEx('<done>')
-        it.loop_specs[(f'{MGR}:TransferManager._prioritize_uploads', 0)] = loop
-        it.call(it.getattr(w.mgr, '_prioritize_uploads'), [[a, b]], {})
-        ra, rb = z3int(ranks['a']), z3int(ranks['b'])
+        swapped = ctx.choose(2, 'input-order') == 1
+        r = it.call(it.getattr(w.mgr, '_prioritize_uploads'), [[b, a] if swapped else [a, b]], {})
         pa, pb = w.prio(w.user(a)), w.prio(w.user(b))
+        ok_shape = isinstance(r, list) and len(r) == 2 and {id(x) for x in r} == {id(a), id(b)}
+        first_a = ok_shape and r[0] is a
         ctx.prove('C05._prioritize_uploads.rank-embeds-priority',
-                  z3.And(z3.Implies(lex_gt(pa, pb), ra > rb), z3.Implies(lex_eq(pa, pb), ra == rb)),
-                  'the rank must order users by (privileged, friend, online/away) lexicographically')
+                  z3.And(z3.BoolVal(ok_shape), z3.Implies(lex_gt(pa, pb), z3.BoolVal(first_a)), z3.Implies(lex_gt(pb, pa), z3.BoolVal(ok_shape and not first_a))),
+                  'uploads must be ordered by (privileged, friend, online/away) of their users, lexicographically, highest first')
     ex.run(step, 'rank-step')
 
 
